@@ -126,3 +126,18 @@ def spearman(x, y):
 
 def mean_fraction(values):
     return F(sum(F(v).limit_denominator(10**9) for v in values), len(values))
+
+
+def correlation_ratio(groups):
+    """eta = sqrt(SS_between / SS_total): the R of the one-way ANOVA / of the OLS regression of x on the class"""
+    groups = [g for g in groups if len(g) > 0]
+    allv = [v for g in groups for v in g]
+    n = len(allv)
+    if n < 2 or len(groups) < 2:
+        return None
+    mean = sum(allv) / n
+    sst = sum((v - mean) ** 2 for v in allv)
+    if sst == 0:
+        return None
+    ssb = sum(len(g) * ((sum(g) / len(g)) - mean) ** 2 for g in groups)
+    return math.sqrt(max(ssb / sst, 0.0))
